@@ -110,6 +110,7 @@ LookupEnd ==
     /\ LET c == cur[e.in.g] IN
        FlagIf({<<e.in.ok /\ e.in.lines = "other", "C01 lookup returned lines that are not those of an authentic record">>,
                <<~faulty /\ ~forked /\ ~e.in.skip /\ ~(e.in.ok /\ e.in.lines = "true"), "C01 honest server and cache but the lookup did not return the server's lines">>,
+               <<e.w = "clientc14" /\ ~e.in.skip /\ ~(e.in.ok /\ e.in.lines = "true"), "C14 honest server but a concurrent lookup did not return exactly the server's lines">>,
                <<c.served.kind = "good" /\ c.cfgBefore.kind = "good" /\ ~Consistent(c.cfgBefore, c.served) /\ e.in.ok,
                  "C13 lookup succeeded although the server presented a signed tree inconsistent with the stored one">>,
                \* (a repeated lookup of a key returns the cached security error of the first one, without a new report)
